@@ -560,7 +560,8 @@ def gen_case(rng, max_n):
         else:
             case["r"], case["r_np"] = float(r), "float64"
     if rng.random() < 0.3:          # the same index queried again with other radii (no state may leak between queries)
-        case["more"] = [{"r": float(km) * f, "return_distance": rng.random() < 0.8} for f in
+        # (radii stay within half the circumference: beyond it scikit-learn's haversine reduced distance is not monotone)
+        case["more"] = [{"r": min(float(km) * f, 20000.0), "return_distance": rng.random() < 0.8} for f in
                         rng.sample([0.5, 2.0, 1.0, 10.0], rng.choice([1, 1, 2]))]
     return case
 
